@@ -6,10 +6,11 @@
    list, every chunk size > 0, every flag combination, every exclusion set and EVERY sequence of
    Next/Advance targets: the implementation machine returns exactly what the specification
    (drop hits below the target, return the next live hit with its own details) returns.
-   Not yet a theorem (decided by the correspondence run only): ReplaceActual with a subset, and
-   independence from leftovers in reused PostingsList / iterator objects. *)
+   ReplaceActual with a subset (before the first call) is C07_replace_actual.
+   Not a theorem (decided by the correspondence run only): independence from leftovers in reused
+   PostingsList / iterator objects (the model's initial states are built from scratch). *)
 From Coq Require Import List NArith Sorted.
-Require Import ZV.Iter ZV.IterProof ZV.Iter1.
+Require Import ZV.Iter ZV.IterProof ZV.Iter1 ZV.IterReplace.
 Import ListNotations.
 Open Scope N_scope.
 
@@ -30,3 +31,10 @@ Theorem C07_single_hit_encoding : forall (loc : Type) (doc norm : N) (inclFN inc
   run1 loc norm inclFN (init1 doc E) ops = run_spec loc inclFN inclLocs (live loc (P1 loc doc norm) E) ops.
 Proof. exact C07_single_hit. Qed.
 Print Assumptions C07_single_hit_encoding.
+
+Theorem C07_replace_actual : forall (loc : Type) (P : list (hit loc)) (cs : N) (inclFN inclLocs : bool),
+  0 < cs -> StronglySorted N.lt (map fst P) ->
+  forall A, is_subset_bitmap loc P A ->
+  forall ops, run_impl loc P cs inclFN inclLocs (init_replaced loc P A) ops = run_spec loc inclFN inclLocs (restrict loc P A) ops.
+Proof. exact IterReplace.C07_replace_actual. Qed.
+Print Assumptions C07_replace_actual.
